@@ -35,6 +35,24 @@ pub struct SlotView {
     pub refresh_ids: Vec<u64>,
     /// `(addr id, is_up)` hints sorted by addr id.
     pub hints: Vec<(u16, bool)>,
+    /// Client routes carried, sorted: partial = entries of the pending `ClientRoutesUpdate`
+    /// (`None` port = deletion), full = routes of `metadata.client_routes`;
+    /// outer `None` = no client-routes information at all.
+    pub routes: Option<Vec<(u64, u16, Option<u16>)>>,
+}
+
+fn route_for(host: u64, conn: u16, port: u16) -> ClientRoute {
+    ClientRoute {
+        connection_id: conn.to_string(),
+        host_id: Uuid::from_u128(host as u128),
+        hostname: "h".to_owned(),
+        port: Some(port),
+        tls_port: None,
+    }
+}
+
+fn key_of(h: &Uuid, c: &str) -> (u64, u16) {
+    (h.as_u128() as u64, c.parse().unwrap_or(0))
 }
 
 pub struct UpdateSlot {
@@ -75,6 +93,47 @@ impl UpdateSlot {
         id
     }
 
+    /// `merge_metadata` whose metadata has client routes configured (`Some`), holding
+    /// `routes` = (host, conn, port).
+    pub fn merge_metadata_with_routes(
+        &mut self,
+        tag: u64,
+        with_refresh: bool,
+        routes: &[(u64, u16, u16)],
+    ) -> Option<u64> {
+        let (chan, id) = if with_refresh {
+            let (tx, rx) = oneshot::channel();
+            let id = self.next_refresh;
+            self.next_refresh += 1;
+            self.receivers.push((id, rx));
+            (Some(tx), Some(id))
+        } else {
+            (None, None)
+        };
+        let mut cr = ClientRoutes::default();
+        cr.extend(routes.iter().map(|&(h, c, p)| route_for(h, c, p)));
+        let metadata = Metadata {
+            peers: peers_for(tag),
+            keyspaces: HashMap::new(),
+            cluster_name: None,
+            client_routes: Some(cr),
+        };
+        MetadataUpdate::merge_metadata(&mut self.slot, metadata, chan);
+        id
+    }
+
+    /// `merge_client_routes_update` with entries (host, conn, Some(port) = upsert | None = removal).
+    pub fn merge_client_routes(&mut self, entries: &[(u64, u16, Option<u16>)]) {
+        let mut updates: HashMap<Uuid, HashMap<String, Option<ClientRoute>>> = HashMap::new();
+        for &(h, c, p) in entries {
+            updates
+                .entry(Uuid::from_u128(h as u128))
+                .or_default()
+                .insert(c.to_string(), p.map(|p| route_for(h, c, p)));
+        }
+        MetadataUpdate::merge_client_routes_update(&mut self.slot, ClientRoutesUpdate { updates });
+    }
+
     pub fn merge_topology(&mut self, tag: u64) {
         MetadataUpdate::merge_topology_update(&mut self.slot, peers_for(tag));
     }
@@ -99,6 +158,7 @@ impl UpdateSlot {
             peers_tag: None,
             refresh_ids: Vec::new(),
             hints: Vec::new(),
+            routes: None,
         };
         let mut answered_count = 0usize;
         if let Some(update) = taken {
@@ -117,6 +177,20 @@ impl UpdateSlot {
                 }) => {
                     view.kind = "full";
                     view.peers_tag = Some(tag_of(&metadata.peers));
+                    view.routes = metadata.client_routes.as_ref().map(|cr| {
+                        let mut v: Vec<_> = cr
+                            .routes
+                            .iter()
+                            .flat_map(|(h, m)| {
+                                m.iter().map(move |(c, r)| {
+                                    let k = key_of(h, c);
+                                    (k.0, k.1, r.port)
+                                })
+                            })
+                            .collect();
+                        v.sort_unstable();
+                        v
+                    });
                     for ch in refresh_responses {
                         answered_count += 1;
                         let _ = ch.send(Ok(()));
@@ -125,6 +199,20 @@ impl UpdateSlot {
                 Some(MetadataChanges::Partial(p)) => {
                     view.kind = "partial";
                     view.peers_tag = p.peers.as_deref().map(tag_of);
+                    view.routes = p.client_routes_updates.as_ref().map(|u| {
+                        let mut v: Vec<_> = u
+                            .updates
+                            .iter()
+                            .flat_map(|(h, m)| {
+                                m.iter().map(move |(c, r)| {
+                                    let k = key_of(h, c);
+                                    (k.0, k.1, r.as_ref().and_then(|r| r.port))
+                                })
+                            })
+                            .collect();
+                        v.sort_unstable();
+                        v
+                    });
                 }
             }
         }
